@@ -419,6 +419,9 @@ func Extract(hi, lo int, a *Term) *Term {
 			return Extract(hi, lo, in)
 		}
 	}
+	if a.Op == "extract" {
+		return Extract(a.P2+hi, a.P2+lo, a.Args[0])
+	}
 	if a.Op == "concat" {
 		// args[0] is high part
 		lw := a.Args[1].Sort.W
